@@ -7,8 +7,13 @@
 // python (tools/teamcity_decode.py, tools/junit_project.py); this program never judges.
 // Usage: outputs <teamcity|junit> <script.tsv> <capture.ndjson>
 // Script lines (TSV: op, a, b, c, n, k; strings hex encoded):
-//   start (a=package, k=run-ignored 0|1) | group a=name | test a=name b=file n=line k=n|i | skip (same; name starts with z)
-//   print a=text | fail a=file c=message n=line | endtest | endgroup | end (runs everything since start) | reset
+//   start (a=package, k=run-ignored 0|1, n=run options: colour + 2 * verbosity 0..2; a NEW reporter object)
+//   group a=name | test a=name b=file n=line k=n|i | skip (same; name starts with z)
+//   print a=text | fail a=file c=message n=line | endtest | endgroup | end (runs everything since start / restart) | reset
+//   restart (k=run-ignored): a further run (new registry, new result) served by the SAME reporter object
+//   setpkg a=package (JUnit: setPackageName) | fname a=group (JUnit: the public createFileName, answer logged)
+//     - both wherever no group is open: between start/restart and end they are executed at that place of the run (in front of
+//       the registry's next group-start / tests-ended callback), after `end' they are executed at once.
 #include "vh.h"
 #include "CppUTest/TestHarness.h"
 #include "CppUTest/TestRegistry.h"
@@ -53,16 +58,51 @@ static std::vector<Marker> g_marks;
 static std::string H(const SimpleString& s) { return "\"" + vh_hex(std::string(s.asCharString())) + "\""; }
 static std::string H(const std::string& s) { return "\"" + vh_hex(s) + "\""; }
 static std::string g_pkg;     // package name given to the JUnit reporter for this run
+static int g_opts = 0;        // run options given to the reporter: colour + 2 * verbosity
 static void mark(const std::string& j) { Marker m; m.json = j; m.io = g_io.size(); g_marks.push_back(m); }
+
+// calls on the reporter object itself, made while no group is open
+struct MidOp { int kind; std::string a; };     // kind 0 setPackageName(a), 1 createFileName(a)
+static TestOutput* g_output = NULL;            // the reporter object: lives from `start' to the next `start' / `reset'
+static JUnitTestOutput* g_junit = NULL;        // the same object when it is a JUnit reporter
+static void exec_mid(const MidOp& op)
+{
+    if (op.kind == 0) {
+        mark("\"op\":\"setpkg\",\"pkg\":" + H(op.a));
+        g_junit->setPackageName(op.a.c_str());
+        g_pkg = op.a;
+    } else {
+        SimpleString r = g_junit->createFileName(op.a.c_str());
+        mark("\"op\":\"fname\",\"g\":" + H(op.a) + ",\"fname\":" + H(r));
+    }
+}
 
 class ProbeResult : public TestResult
 {
 public:
-    bool runIgnored;
-    explicit ProbeResult(TestOutput& o) : TestResult(o), runIgnored(false) {}
-    void testsStarted() CPPUTEST_OVERRIDE { mark(std::string("\"op\":\"start\",\"ri\":") + (runIgnored ? "true" : "false") + ",\"pkg\":" + H(g_pkg)); TestResult::testsStarted(); }
-    void testsEnded() CPPUTEST_OVERRIDE { mark("\"op\":\"end\""); TestResult::testsEnded(); }
-    void currentGroupStarted(UtestShell* t) CPPUTEST_OVERRIDE { mark("\"op\":\"group\",\"g\":" + H(t->getGroup())); TestResult::currentGroupStarted(t); }
+    bool runIgnored, again;
+    const std::vector<std::vector<MidOp> >* mids;   // mids[k]: calls on the reporter in front of the k-th group start; last entry: in front of tests-ended
+    size_t groupsSeen;
+    explicit ProbeResult(TestOutput& o) : TestResult(o), runIgnored(false), again(false), mids(NULL), groupsSeen(0) {}
+    void midOps(bool rest)
+    {
+        if (!mids) return;
+        for (size_t k = groupsSeen; k < mids->size() && (rest || k == groupsSeen); k++)
+            for (size_t i = 0; i < (*mids)[k].size(); i++) exec_mid((*mids)[k][i]);
+    }
+    void testsStarted() CPPUTEST_OVERRIDE
+    {
+        char b[64]; snprintf(b, sizeof b, ",\"color\":%s,\"verb\":%d", (g_opts & 1) ? "true" : "false", g_opts >> 1);
+        if (again) mark(std::string("\"op\":\"restart\",\"ri\":") + (runIgnored ? "true" : "false"));
+        else mark(std::string("\"op\":\"start\",\"ri\":") + (runIgnored ? "true" : "false") + ",\"pkg\":" + H(g_pkg) + b);
+        TestResult::testsStarted();
+    }
+    void testsEnded() CPPUTEST_OVERRIDE { midOps(true); mark("\"op\":\"end\""); TestResult::testsEnded(); }
+    void currentGroupStarted(UtestShell* t) CPPUTEST_OVERRIDE
+    {
+        midOps(false); groupsSeen++;
+        mark("\"op\":\"group\",\"g\":" + H(t->getGroup())); TestResult::currentGroupStarted(t);
+    }
     void currentGroupEnded(UtestShell* t) CPPUTEST_OVERRIDE { mark("\"op\":\"endgroup\""); TestResult::currentGroupEnded(t); }
     void currentTestStarted(UtestShell* t) CPPUTEST_OVERRIDE;
     void currentTestEnded(UtestShell* t) CPPUTEST_OVERRIDE { mark("\"op\":\"endtest\""); TestResult::currentTestEnded(t); }
@@ -122,31 +162,9 @@ void ProbeResult::currentTestStarted(UtestShell* t)
     TestResult::currentTestStarted(t);
 }
 
-// ---------------------------------------------------------------- one execution
-static void run_execution(bool junit, const std::string& pkg, bool runIgnored, std::vector<Script>& scripts, FILE* out)
+// ---------------------------------------------------------------- log lines: one per marker, with the bytes written since
+static void flush_marks(FILE* out)
 {
-    g_io.clear(); g_marks.clear(); g_nfiles = 0; g_pkg = pkg;
-    TestRegistry reg;
-    TestFilter notZ("z");
-    notZ.invertMatching();
-    reg.setNameFilters(&notZ);
-    if (runIgnored) reg.setRunIgnored();
-    std::vector<UtestShell*> shells;
-    for (size_t i = 0; i < scripts.size(); i++)
-        shells.push_back(scripts[i].ignoredKind ? (UtestShell*) new IgnScriptShell(scripts[i]) : (UtestShell*) new ScriptShell(scripts[i]));
-    for (size_t i = shells.size(); i-- > 0;) reg.addTest(shells[i]);     // addTest prepends
-
-    TestOutput* output;
-    if (junit) { JUnitTestOutput* j = new JUnitTestOutput; j->setPackageName(pkg.c_str()); output = j; }
-    else output = new TeamCityTestOutput;
-    {
-        ProbeResult result(*output);
-        result.runIgnored = runIgnored;
-        reg.runAllTests(result);
-    }
-    delete output;
-    for (size_t i = 0; i < shells.size(); i++) delete shells[i];
-
     for (size_t m = 0; m < g_marks.size(); m++) {
         size_t from = g_marks[m].io, to = (m + 1 < g_marks.size()) ? g_marks[m + 1].io : g_io.size();
         std::string so;
@@ -165,6 +183,42 @@ static void run_execution(bool junit, const std::string& pkg, bool runIgnored, s
         fprintf(out, "]}\n");
     }
     fflush(out);
+    g_io.clear(); g_marks.clear();
+}
+
+// ---------------------------------------------------------------- the reporter object and one run served by it
+static void drop_reporter() { delete g_output; g_output = NULL; g_junit = NULL; }
+static void new_reporter(bool junit, const std::string& pkg, int opts)
+{
+    drop_reporter();
+    g_nfiles = 0; g_pkg = pkg; g_opts = opts;
+    if (junit) { g_junit = new JUnitTestOutput; g_junit->setPackageName(pkg.c_str()); g_output = g_junit; }
+    else g_output = new TeamCityTestOutput;
+    if (opts & 1) g_output->color();
+    int verb = opts >> 1;
+    if (verb > 0) g_output->verbose(verb == 1 ? TestOutput::level_verbose : TestOutput::level_veryVerbose);
+}
+
+static void run_execution(bool again, bool runIgnored, std::vector<Script>& scripts, const std::vector<std::vector<MidOp> >& mids, FILE* out)
+{
+    TestRegistry reg;
+    TestFilter notZ("z");
+    notZ.invertMatching();
+    reg.setNameFilters(&notZ);
+    if (runIgnored) reg.setRunIgnored();
+    std::vector<UtestShell*> shells;
+    for (size_t i = 0; i < scripts.size(); i++)
+        shells.push_back(scripts[i].ignoredKind ? (UtestShell*) new IgnScriptShell(scripts[i]) : (UtestShell*) new ScriptShell(scripts[i]));
+    for (size_t i = shells.size(); i-- > 0;) reg.addTest(shells[i]);     // addTest prepends
+    {
+        ProbeResult result(*g_output);
+        result.runIgnored = runIgnored;
+        result.again = again;
+        result.mids = &mids;
+        reg.runAllTests(result);
+    }
+    for (size_t i = 0; i < shells.size(); i++) delete shells[i];
+    flush_marks(out);
 }
 
 int main(int argc, char** argv)
@@ -181,8 +235,10 @@ int main(int argc, char** argv)
     PlatformSpecificFlush = cap_flush;
 
     std::vector<Script> scripts;
-    std::string pkg, group; bool runIgnored = false; bool started = false;
+    std::vector<std::vector<MidOp> > mids(1);
+    std::string group; bool runIgnored = false; bool started = false, again = false, inGroup = false;
     std::string line;
+#define HERR(w) { fprintf(out, "{\"op\":\"harness-error\",\"what\":\"" w "\"}\n"); break; }
     while (vh_readline(in, line)) {
         if (line.empty()) continue;
         std::vector<std::string> f = vh_split(line);
@@ -190,18 +246,33 @@ int main(int argc, char** argv)
         const std::string& op = f[0];
         std::string a = vh_unhex(f[1]), b = vh_unhex(f[2]), c = vh_unhex(f[3]);
         size_t n = (size_t) atol(f[4].c_str());
-        if (op == "reset") { fprintf(out, "{\"op\":\"reset\"}\n"); scripts.clear(); started = false; continue; }
-        if (op == "start") { scripts.clear(); pkg = a; runIgnored = f[5] == "1"; started = true; }
-        else if (!started) { fprintf(out, "{\"op\":\"harness-error\",\"what\":\"call before start\"}\n"); break; }
-        else if (op == "group") group = a;
+        if (op == "reset") { fprintf(out, "{\"op\":\"reset\"}\n"); scripts.clear(); started = false; drop_reporter(); g_io.clear(); g_marks.clear(); continue; }
+        if (op == "start" || op == "restart") {
+            if (started) HERR("start inside a run")
+            again = op == "restart";
+            if (again && !g_output) HERR("restart without a reporter")
+            if (!again) new_reporter(junit, a, (int) n);
+            scripts.clear(); mids.assign(1, std::vector<MidOp>());
+            runIgnored = f[5] == "1"; started = true; inGroup = false;
+        }
+        else if (op == "setpkg" || op == "fname") {
+            if (!g_junit) HERR("setpkg / fname without a JUnit reporter")
+            if (inGroup) HERR("setpkg / fname inside a group")
+            MidOp m; m.kind = op == "fname"; m.a = a;
+            if (started) mids.back().push_back(m);
+            else { exec_mid(m); flush_marks(out); }
+        }
+        else if (!started) HERR("call before start")
+        else if (op == "group") { if (inGroup) HERR("group inside a group") group = a; inGroup = true; mids.push_back(std::vector<MidOp>()); }
         else if (op == "test" || op == "skip") { Script s; s.group = group; s.name = a; s.file = b; s.line = n; s.ignoredKind = f[5] == "i"; scripts.push_back(s); }
         else if (op == "print" || op == "fail") {
-            if (scripts.empty()) { fprintf(out, "{\"op\":\"harness-error\",\"what\":\"action outside a test\"}\n"); break; }
+            if (scripts.empty()) HERR("action outside a test")
             Action x; x.kind = op == "fail"; x.a = a; x.c = c; x.n = n; scripts.back().acts.push_back(x);
         }
-        else if (op == "endtest" || op == "endgroup") {}
-        else if (op == "end") { run_execution(junit, pkg, runIgnored, scripts, out); started = false; }
-        else { fprintf(out, "{\"op\":\"harness-error\",\"what\":\"unknown op\"}\n"); break; }
+        else if (op == "endtest") {}
+        else if (op == "endgroup") inGroup = false;
+        else if (op == "end") { run_execution(again, runIgnored, scripts, mids, out); started = false; }
+        else HERR("unknown op")
     }
     fflush(out);
     fclose(out);
